@@ -59,6 +59,11 @@ func (eval *Evaluator) Evaluate(ct *rlwe.Ciphertext, testPolyWithSlotIndex map[i
 		return nil, err
 	}
 
+	// The accumulator (a ciphertext of the blind rotation ring) is used as scratch for the LWE sample.
+	if ct.Level() > eval.paramsBR.MaxLevel() {
+		return nil, fmt.Errorf("cannot Evaluate: LWE ciphertext level %d exceeds the blind rotation ring's maximum level %d", ct.Level(), eval.paramsBR.MaxLevel())
+	}
+
 	ringQBR := eval.paramsBR.RingQ().AtLevel(brk.LevelQ())
 	ringQLWE := eval.paramsLWE.RingQ().AtLevel(ct.Level())
 
